@@ -192,6 +192,11 @@ class AliasMixin:
         aliases = copy.deepcopy(self.ALIASES)
 
         while True:
+            # Drop any names that (now) point to themselves: these would
+            # otherwise always count as a link still to shorten, below, and the
+            # loop would never end
+            aliases = {k: v for k, v in aliases.items() if k != v}
+
             # Check for chained aliases by testing to see if there are any
             # shared names between the keys and values. If so, there is at
             # least one link that can still be shortened
